@@ -142,13 +142,15 @@ def run(ctx):
                 ctx.violated(r5, init, f"ParamViewer shape [batch_size={bs}]", "the parameter viewer is built for a parameter field whose shape is not (batch_size, npars) / (npars,): rows of a batch (or parameters beyond the first few) are gathered from the wrong positions", expected="(3, npars=7)" if bs else "(7,) or (1, 7) for npars=7 (2 parameter sets)", found=str(tuple(shp)))
 
     # ------------------------------------------------------------ R6: every batch row is evaluated with its own parameters
-    r6 = ctx.rule("C10.R6", "ROWS: all seven appliers, the constraint model and the main model interpreted END TO END with 2 batch rows of DIFFERENT symbolic parameters (and unbatched): each row of the batched result equals the unbatched evaluation at that row's parameters -- no row reads another row's parameters, auxiliary data or cached tensors (shared engines with C01.R10, C01.R12, C02.R9)", "ROWS", floor=20)
+    r6 = ctx.rule("C10.R6", "ROWS: all seven appliers, the constraint model and the main model interpreted END TO END with 2 batch rows of DIFFERENT symbolic parameters (and unbatched): each row of the batched result equals the unbatched evaluation at that row's parameters -- no row reads another row's parameters, auxiliary data or cached tensors (shared engines with C01.R9, C01.R10, C01.R12, C02.R9)", "ROWS", floor=20)
     from .c01 import _apply_end_to_end, _apply_interpolating, _rate_end_to_end
     from .c02 import _constraint_template
     _apply_end_to_end(ctx, r6, reg)
     _apply_interpolating(ctx, r6, reg)
     _rate_end_to_end(ctx, r6)
     _constraint_template(ctx, r6, repo)
+    from . import viewers
+    viewers.check(ctx, r6)  # the viewers every batched evaluation splits / stitches / gathers through, flat and with batch rows, with in-place refilled buffers
 
     # ------------------------------------------------------------ R2 / R4
     targets = [(c, c.methods["apply"]) for _, (b, c) in sorted(reg.items())]
